@@ -2,9 +2,9 @@
 # usage: tools/round2_done.sh <Cxx>   -- confirm the round-2 changes of one property, run the check against them, drop the agent's worktree
 export GOFLAGS=-mod=mod GOPROXY=off GOSUMDB=off GOTOOLCHAIN=local
 ID=$1
-git -C /repo worktree remove --force /tmp/seed2/$ID >/dev/null 2>&1
-for K in 3 4; do
-  [ -f /tmp/seedout2/$ID/patch$K.diff ] || { echo "$ID-$K: not delivered"; continue; }
-  SEEDOUT=/tmp/seedout2 /verif/tools/verify_seed.sh $ID $K 2>&1 | tail -2
+git -C /repo worktree remove --force ${SD:-/tmp/seed2}/$ID >/dev/null 2>&1
+for K in ${KS:-3 4}; do
+  [ -f ${SO:-/tmp/seedout2}/$ID/patch$K.diff ] || { echo "$ID-$K: not delivered"; continue; }
+  SEEDOUT=${SO:-/tmp/seedout2} /verif/tools/verify_seed.sh $ID $K 2>&1 | tail -2
   [ -d /verif/seeded/$ID-$K ] && /verif/tools/seedtest $ID-$K quick 2>&1 | head -3
 done
